@@ -227,7 +227,7 @@ func suiteResp(r *rng, n int) {
 			case "restored":
 				// drop every entry, keep the store: same store URL, fresh dispatcher
 				cache.ResetDispatchers(nil)
-				cache.ResetDispatchers([]config.CacheConfig{p.cacheCfg})
+				cache.ResetDispatchers(withSibling(p.cacheCfg))
 			case "post":
 				method = "POST"
 			}
